@@ -19,7 +19,7 @@ from .core import DomainError, HarnessError, SymBool, cur, have_ctx
 
 Number = Union[int, float, Fraction]
 
-CONFIG = {"exp_uf": None, "log_uf": None, "abstract_args": False, "floor_range": None}
+CONFIG = {"exp_uf": None, "log_uf": None, "abstract_args": False, "floor_range": None, "pow_range": False}
 
 
 def abstract_arg(term):
@@ -360,6 +360,16 @@ class SymReal:
         return SymReal.lift(o) * self.reciprocal()
 
     def __pow__(self, e):
+        if CONFIG["pow_range"] and isinstance(e, SymReal) and e.concrete() is None:
+            # range abstraction of x**y for x >= 0, y > 0 (magnitude questions only): 0**y = 0, otherwise an arbitrary positive value
+            c_ = cur()
+            if c_.branch(self.n < 0) or not c_.branch(e.n > 0):
+                raise HarnessError("range abstraction of pow: needs base >= 0 and exponent > 0")
+            if c_.branch(self.n == 0):
+                return SymReal.const(0)
+            r = z3.Real(c_.fresh_name("pow"))
+            c_.assume(r > 0)
+            return SymReal(r, sign="+")
         if isinstance(e, SymReal):
             e = e.concrete()
             if e is None:
@@ -382,6 +392,24 @@ class SymReal:
         if fe == Fraction(1, 2):
             return self.sqrt()
         raise HarnessError(f"unsupported exponent {e} on SymReal")
+
+    def __rpow__(self, base):
+        """number ** symbolic exponent (range abstraction only: magnitude questions)"""
+        if not CONFIG["pow_range"]:
+            raise HarnessError("symbolic exponent on a plain number")
+        c_ = cur()
+        if not c_.branch(self.n > 0):
+            raise HarnessError("range abstraction of pow: needs exponent > 0")
+        b_ = float(base)
+        if b_ == 0.0:
+            return 0.0
+        if math.isinf(b_) and b_ > 0:
+            return float("inf")
+        if not (b_ > 0):
+            raise HarnessError("range abstraction of pow: needs base >= 0")
+        r = z3.Real(c_.fresh_name("pow"))
+        c_.assume(r > 0)
+        return SymReal(r, sign="+")
 
     def sqrt(self) -> "SymReal":
         c = cur()
